@@ -239,6 +239,11 @@ def r5_length_guards(ctx):
                 for e, cn, ab in lens:
                     op, L, R = q.as_cmp(e)
                     len_is_L = "CatVec::len" in sig(L)
+                    ni = q.narrowed_inner(L if len_is_L else R)
+                    if ni is not None:
+                        r.violation("guarded/" + key + "/reduced", "the length test before the conversion of %s is made on the length %s to %d bits: a longer string passes the bound and is "
+                                    "materialised and processed in full for the price of the bound" % (s, ni[2], ni[1]), c.where(ab))
+                        continue
                     # hypothesis: len exceeds the bound (len > bound)
                     for hyp_truth in ([q.cmp_truth_given_lt(op, not len_is_L)] if op not in ("Eq", "Ne") else [op == "Ne"]):
                         f = force(c, {e: 1 if hyp_truth else 0})
